@@ -205,6 +205,10 @@ func (g *gen) graphCase(id string) *EvalCase {
 		c.Store.Flags = append(c.Store.Flags, f0, f1)
 		c.Store.Segments = append(c.Store.Segments, s0, s1)
 	}
+	if strings.Contains(tag, "-via-top") {
+		// the evaluated flag is also what the store returns for its key: a cycle through it
+		c.Store.Flags = append(c.Store.Flags, top)
+	}
 	c.Flag = top
 	c.Tags = []string{tag}
 	return c
